@@ -205,8 +205,12 @@ def custom_sort_fn(ld, r, count):
         ds = ld.new({gen_a.KEYS[i]: {'v': v} for i, v in enumerate(vals)})
         rev = r.random() < 0.5
         mine = lambda it, reverse=False: list(reversed(sorted(it, reverse=not reverse)))
-        a = list(ds.sort(lambda e: e['v'], reverse=rev).items())
-        b = list(ds.sort(lambda e: e['v'], sort_fn=mine, reverse=rev).items())
+        try:
+            a = list(ds.sort(lambda e: e['v'], reverse=rev).items())
+            b = list(ds.sort(lambda e: e['v'], sort_fn=mine, reverse=rev).items())
+        except Exception as e:
+            fails.append(f'sort(key_fn, reverse={rev}) of a dataset of {n} examples with sort values {vals} raised {type(e).__name__}: {e}'[:300])
+            continue
         if [x[1] for x in a] != [x[1] for x in b] and sorted(vals, reverse=rev) != [x[1]['v'] for x in b]:
             fails.append(f'custom sort_fn: {b} vs default {a}')
         # a sort_fn whose order differs from the builtin one decides the result: without key_fn it is applied to the example keys
